@@ -173,7 +173,6 @@ func (k *Keeper) Slash(ctx sdk.Context, parameter *types.SlashInputInfo) error {
 	if err != nil {
 		return err
 	}
-	writeFunc()
 	// store the slash information
 	height := ctx.BlockHeight()
 	slashInfo := types.OperatorSlashInfo{
@@ -184,10 +183,14 @@ func (k *Keeper) Slash(ctx sdk.Context, parameter *types.SlashInputInfo) error {
 		SlashProportion: parameter.SlashProportion,
 		ExecutionInfo:   executionInfo,
 	}
-	err = k.UpdateOperatorSlashInfo(ctx, parameter.Operator.String(), parameter.AVSAddr, parameter.SlashID, slashInfo)
+	// the slash information is validated (and checked for a duplicate slash ID) while it is
+	// stored; only commit the slashed balances together with it, so that a replayed or invalid
+	// slash has no effect at all.
+	err = k.UpdateOperatorSlashInfo(cc, parameter.Operator.String(), parameter.AVSAddr, parameter.SlashID, slashInfo)
 	if err != nil {
 		return err
 	}
+	writeFunc()
 	return nil
 }
 
